@@ -64,6 +64,16 @@ Theorem c20_iter_by_rrset : forall req, req_transitive req ->
   NoDup (map (fun x => (lc (fst x), rs_type (snd x))) (zone_iter_by_rrset z)).
 Proof. exact build_iter_rrsets. Qed.
 
+(* the names iteration yields are spelled as the zone spells them (apex as given to new, any other
+   name as in the first accepted record at or below it): with c20_iter_by_node / c20_iter_by_rrset
+   this determines the iterated items exactly, letter case included *)
+Theorem c20_iter_names_spelled : forall req, req_transitive req ->
+  forall apex cls wide recs z,
+  zone_build req (zone_new apex cls wide) recs = Some z ->
+  (forall n d, In (n, d) (zone_iter_by_node z) -> spelled apex (accepted apex cls recs) (lc n) = n) /\
+  (forall n rs, In (n, rs) (zone_iter_by_rrset z) -> spelled apex (accepted apex cls recs) (lc n) = n).
+Proof. exact build_iter_names_spelled. Qed.
+
 (* Node::iter as coded — the explicit-stack state machine driven until exhaustion — yields, for
    ANY tree, exactly the pre-order walk the theorems above talk about, within the model's fuel *)
 Theorem c20_iter_state_machine : forall t, node_iter_sm t = Some (node_iter t).
@@ -107,5 +117,6 @@ Print Assumptions c20_add_ok_iff.
 Print Assumptions c20_add_err_kind.
 Print Assumptions c20_iter_by_node.
 Print Assumptions c20_iter_by_rrset.
+Print Assumptions c20_iter_names_spelled.
 Print Assumptions c20_iter_state_machine.
 Print Assumptions c20_soa_ns.
